@@ -250,3 +250,58 @@ def world_reach_counters(ctx, spec):
             ctx.count("decoy_%s" % p["kind"])
         elif p["boundary"] == 3:
             ctx.count("copies_through_corner")
+
+
+def reuse_phase(ctx, spec, structure, pattern, which):
+    """State left behind by earlier calls must not leak: the SAME Atoms object is edited in place (an atom of a planted copy
+    gets another atom type, two atoms swap places) and searched again; the oracles run against the edited world."""
+    import copy
+    els = list(spec["elements"])
+    types = sorted(set(els))
+    copies = [p for p in spec["planted"] if p["kind"] == "copy" and len(p["indices"]) == len(spec["pattern"]["elements"])]
+    if not copies or len(els) < 2:
+        return
+    spec2 = copy.deepcopy(spec)
+    edits = []
+    tel = list(structure.atom_type_elements)
+    i = copies[0]["indices"][-1]
+    other = [t for t in range(len(tel)) if tel[t] != els[i]]
+    if other:
+        t = other[spec["seed"] % len(other)]
+        structure.atom_types[i] = t                      # in-place edit of a per-atom array
+        spec2["elements"][i] = tel[t]
+        edits.append("type")
+    # swap the places of two atoms of different elements (in-place edit of the position array)
+    j = next((k for k in range(len(els)) if spec2["elements"][k] != spec2["elements"][0]), None)
+    if j is not None:
+        tmp = structure.positions[0].copy()
+        structure.positions[0] = structure.positions[j]
+        structure.positions[j] = tmp
+        spec2["positions"][0], spec2["positions"][j] = spec2["positions"][j], spec2["positions"][0]
+        edits.append("swap")
+    if not edits:
+        return
+    for p in spec2["planted"]:
+        if p["kind"] == "copy" and (i in p["indices"] or 0 in p["indices"] or (j is not None and j in p["indices"])):
+            p["kind"] = "edited"
+    ctx.event("reuse", edits)
+    ctx.count("reuse_phases")
+    ctx.rng.reset(spec["scripts"][0])
+    res = call_find(ctx, structure, pattern, spec["atol"], spec["hints"])
+    if which in ("c01", "both"):
+        oracle_c01(ctx, spec2, res, label="after in-place edits")
+    if which in ("c02", "both"):
+        oracle_c02(ctx, spec2, res, label="after in-place edits")
+
+
+def warmup(ctx, spec, structure):
+    """An earlier search with a SMALLER pattern on the same object (anything cached per object must not shrink what a later,
+    larger search sees)."""
+    from . import worlds
+    pat = spec["pattern"]
+    if len(pat["elements"]) < 3:
+        return
+    sub = {"elements": pat["elements"][:2], "positions": pat["positions"][:2]}
+    ctx.rng.reset(spec["scripts"][0])
+    call_find(ctx, structure, worlds.build_pattern(sub), spec["atol"], None, with_quats=False)
+    ctx.count("warmup_searches")
